@@ -464,3 +464,6 @@ def shrink(line):
 
 def exhaustive(tier):
     return True
+
+
+KNOWN_MUST_MATCH_MODEL = True   # inside a known finding's region the observation must still equal the model's (which reproduces the listed defect); see lib/vf/run.py
